@@ -410,8 +410,8 @@ class QLCParserWithRowsAndCols(QLCParser):
                 key=key)
 
         # define rows and cols as attributes of the word list
-        self.rows = unique_sorted(rowIdx, lambda x: ('%s' % x).lower())
-        self.cols = unique_sorted(colIdx, lambda x: x.lower())
+        self.rows = unique_sorted(rowIdx, lambda x: (('%s' % x).lower(), '%s' % x))
+        self.cols = unique_sorted(colIdx, lambda x: (x.lower(), x))
 
         # define height and width of the word list
         self.height = len(self.rows)
